@@ -156,3 +156,54 @@ Qed.
 Lemma join_spec_range emit inv L R p : In p (join_spec emit inv L R) ->
   0 <= fst p < len L /\ (snd p = inv \/ 0 <= snd p < len R).
 Proof. rewrite <- jf_spec. intros H. apply jf_range in H. lia. Qed.
+
+(* ------------------------------------------------------------------ prefixes of the join (E3 / C12)
+   rows_upto I, extended by any prefix of row I, is a prefix of the whole join *)
+Lemma rows_upto_split emit inv L R I : 0 <= I <= len L ->
+  join_spec emit inv L R = rows_upto emit inv L R I ++ jf emit inv (skipn (Z.to_nat I) L) R I.
+Proof.
+  intros HI. rewrite <- jf_spec. rewrite <- (firstn_skipn (Z.to_nat I) L) at 1.
+  rewrite jf_app. unfold rows_upto. rewrite len_firstn by lia. rewrite Z.add_0_l. reflexivity.
+Qed.
+
+Lemma rows_upto_prefix emit inv L R I : 0 <= I <= len L ->
+  exists rest, join_spec emit inv L R = rows_upto emit inv L R I ++ rest.
+Proof. intros HI. eexists. apply rows_upto_split. exact HI. Qed.
+
+Lemma rows_row_prefix emit inv L R I pre suf : 0 <= I < len L ->
+  row emit inv R I (nthZ L I) = pre ++ suf ->
+  exists rest, join_spec emit inv L R = (rows_upto emit inv L R I ++ pre) ++ rest.
+Proof.
+  intros HI Hrow. destruct (rows_upto_prefix emit inv L R (I + 1) ltac:(lia)) as (rest & E).
+  exists (suf ++ rest). rewrite E, rows_upto_succ by lia. rewrite Hrow, <- !app_assoc. reflexivity.
+Qed.
+
+Lemma matches_from_app key l1 l2 j0 :
+  matches_from key (l1 ++ l2) j0 = matches_from key l1 j0 ++ matches_from key l2 (j0 + len l1).
+Proof.
+  revert j0. induction l1 as [|x t IH]; intros j0; cbn [app matches_from].
+  - rewrite len_nil, Z.add_0_r. reflexivity.
+  - rewrite IH, len_cons. replace (j0 + 1 + len t) with (j0 + (len t + 1)) by lia.
+    destruct (x =? key); reflexivity.
+Qed.
+
+(* on a right side whose keys before a differ from key and whose keys a..c-1 equal it, the row of
+   key starts with the pairs (i,a) .. (i,c-1) *)
+Lemma row_run_prefix emit inv R i key a c : 0 <= a < c -> c <= len R ->
+  (forall j, 0 <= j < a -> nthZ R j <> key) ->
+  (forall j, a <= j < c -> nthZ R j = key) ->
+  exists suf, row emit inv R i key = map (fun j => (i, j)) (seqZ a (c - a)) ++ suf.
+Proof.
+  intros Hac Hc Hlt Heq.
+  assert (Hlf : len (firstn (Z.to_nat c) R) = c) by (apply len_firstn; lia).
+  assert (Hnth : forall j, 0 <= j < c -> nthZ (firstn (Z.to_nat c) R) j = nthZ R j).
+  { intros j Hj. unfold nthZ, nthd. apply nth_firstn. lia. }
+  assert (Hm : matches key R = seqZ a (c - a) ++ matches_from key (skipn (Z.to_nat c) R) c).
+  { unfold matches. rewrite <- (firstn_skipn (Z.to_nat c) R) at 1. rewrite matches_from_app, Hlf, Z.add_0_l.
+    f_equal. rewrite (matches_from_interval key _ 0 a c); try lia.
+    - rewrite Z.add_0_l. reflexivity.
+    - intros j Hj. rewrite Hnth by lia. apply Hlt. exact Hj.
+    - intros j Hj. rewrite Hnth by lia. apply Heq. exact Hj. }
+  unfold row. rewrite Hm. rewrite (seqZ_cons a (c - a)) by lia. cbn [app].
+  eexists. rewrite <- map_app. cbn [map app]. reflexivity.
+Qed.
